@@ -575,7 +575,7 @@ def _inline_temps_once(fn):
             banned.add(n.target.id)
         todo.extend(ast.iter_child_nodes(n))
     changed = False
-    for node, fld, blk in list(_blocks(fn)):
+    for blk in _own_blocks(fn):
         # blocks of nested functions are handled with their own function
         i = 0
         while i < len(blk):
@@ -584,7 +584,7 @@ def _inline_temps_once(fn):
                 i += 1
                 continue
             t = st.targets[0].id
-            if t in banned or stores.get(t) != 1 or not loads.get(t) or _owner(fn, blk) is not fn:
+            if t in banned or stores.get(t) != 1 or not loads.get(t):
                 i += 1
                 continue
             e = st.value
@@ -636,21 +636,21 @@ def _inline_temps_once(fn):
     return changed
 
 
-def _owner(fn, blk):
-    """the innermost function whose body (transitively, without entering nested functions) contains this block"""
+def _own_blocks(fn):
+    """the statement blocks of fn itself (nested functions / classes / lambdas not entered)"""
+    out = []
     todo = [fn]
     while todo:
         n = todo.pop()
         for fld in ('body', 'orelse', 'finalbody'):
-            if getattr(n, fld, None) is blk:
-                return fn
-        if isinstance(n, ast.ExceptHandler) and n.body is blk:
-            return fn
+            blk = getattr(n, fld, None)
+            if isinstance(blk, list) and blk and isinstance(blk[0], ast.stmt):
+                out.append(blk)
         for c in ast.iter_child_nodes(n):
-            if isinstance(c, (ast.FunctionDef, ast.AsyncFunctionDef, ast.ClassDef, ast.Lambda)) and c is not fn:
+            if isinstance(c, (ast.FunctionDef, ast.AsyncFunctionDef, ast.ClassDef, ast.Lambda)):
                 continue
             todo.append(c)
-    return None
+    return out
 
 
 def _leads(hdr, t):
